@@ -4,7 +4,9 @@
    (Gen/RedirectClientFacts.v).  A rewrite of a constructor, of SetRedirectPolicy or of Clone either
    cannot be translated (gosync fails) or breaks one of these proofs. *)
 From ReqV Require Import Lib.Bytes Model.Authority Model.Redirect Model.RedirectClient.
-From ReqV Require Import Gen.RedirectPolicies Gen.RedirectClientFacts.
+From ReqV Require Import Lib.BytesFacts.
+From ReqV Require Import Gen.RedirectPolicies Gen.RedirectClientFacts Gen.RedirectHost.
+From Coq Require Import Lia.
 
 (* the decision of each policy value as the source states it *)
 Definition src_permits (p : policy) (target : bytes) (via : list bytes) : bool :=
@@ -51,3 +53,38 @@ Lemma client_source_shape :
   clone_copies_http_client_by_value = true /\
   new_client_installs_default = true.
 Proof. repeat split; reflexivity. Qed.
+
+(* ---- getHostname / getDomain: the model is the translated source ---- *)
+
+Lemma strip_brackets_spec host :
+  match strip_brackets host with Some h => h | None => host end =
+  if andb (andb (Nat.leb 2 (length host)) (beqb (nth 0 host x00) "["%byte))
+          (beqb (nth (length host - 1) host x00) "]"%byte)
+  then firstn (length host - 1 - 1) (skipn 1 host) else host.
+Proof.
+  unfold strip_brackets. destruct host as [|b t]; [reflexivity|].
+  cbn [starts_lbr tl]. unfold lbr, rbr. destruct t as [|z t' _] using rev_ind.
+  - cbn. destruct (beqb b "["%byte); reflexivity.
+  - rewrite rev_app_distr. cbn [rev app].
+    assert (Hl : length (b :: t' ++ [z]) = S (S (length t'))) by (cbn; rewrite app_length; cbn; lia).
+    rewrite Hl. cbn [Nat.leb nth andb].
+    replace (S (S (length t')) - 1) with (S (length t')) by lia.
+    replace (S (length t') - 1) with (length t') by lia.
+    cbn [nth skipn]. rewrite app_nth2 by lia. rewrite Nat.sub_diag. cbn [nth].
+    rewrite firstn_app_exact, rev_involutive.
+    destruct (beqb b "["%byte); [|reflexivity]. cbn [andb].
+    destruct (beqb z "]"%byte); reflexivity.
+Qed.
+
+Lemma get_hostname_is_the_source host : get_hostname host = src_get_hostname host.
+Proof.
+  unfold get_hostname, src_get_hostname. cbv zeta.
+  destruct (split_host_port host); [reflexivity|]. now rewrite strip_brackets_spec.
+Qed.
+
+Lemma get_domain_is_the_source host : get_domain host = src_get_domain host.
+Proof.
+  unfold get_domain, src_get_domain. cbv zeta. rewrite <- get_hostname_is_the_source.
+  destruct (is_ip_literal (get_hostname host)); [reflexivity|]. unfold dot.
+  destruct (split_byte "."%byte (get_hostname host)) as [|a [|b [|c r]]]; reflexivity.
+Qed.
